@@ -20,7 +20,7 @@
    excluded; annotations and voice names hold no quote; setting values and region ids are ASCII without spaces. *)
 From Coq Require Import List ZArith NArith Permutation.
 From Astisub Require Import Kit.Base Kit.Str Kit.Scan Model.Dur Model.Vtt Proofs.VttIOProofs Proofs.VttBase Proofs.VttLine Proofs.VttSimple Proofs.VttDoc Proofs.EolProofs.
-From Astisub Require Import Proofs.VttReadTime Proofs.VttReadLine Proofs.VttReadDoc Proofs.VttReadDec Proofs.VttNeeds Proofs.VttDomain.
+From Astisub Require Import Proofs.VttReadTime Proofs.VttReadLine Proofs.VttReadDoc Proofs.VttReadDec Proofs.VttNeeds Proofs.VttDomain Proofs.VttWriteRender.
 From Coq Require Strings.String.
 Import Strings.String.StringSyntax.
 Delimit Scope string_scope with string.
@@ -232,3 +232,94 @@ Print Assumptions C02_timestamp_spellings.
 Print Assumptions C02_read_rendered_lines.
 Print Assumptions C02_read_rendered.
 Print Assumptions C02_read_rendered_example.
+
+(* ---- the writing half, without the reader (Proofs/VttWriteRender.v) ----
+   What the writer produces is stated by a rendering, in the sense of the reading half: the canonical rendering of d with
+   key orders so, ro is render_vtt (w_hrend d so ro) (w_gdoc d so ro) (w_cues d) [] -- no byte-order mark, nothing after
+   WEBVTT, one empty line after the header, after the STYLE block, after the region definitions and between cues, each
+   cue with its number (from 1) as identifier, hh:mm:ss.ttt timestamps (hour field wider when needed), one space on either
+   side of the arrow and before each setting, the settings in the writer's order, a NOTE block ended by one empty line,
+   every line ended by LF, nothing after the last cue's text.
+   C02_write_is_rendering: the writer's bytes ARE that rendering (structural: the document has a cue, region keys are
+   the region identifiers, no time is negative -- needed, C02_write_is_rendering_needs_nonneg).
+   C02_write_denotes: that rendering denotes ndoc d so ro (denote_vtt; the reader does not occur in the statement).
+   C02_write_rendering_ok: for a representable document the rendering satisfies the side conditions of the reading half's
+   theorem C02_read_rendered_lines, provided no cue refers to a region with the EMPTY identifier (the reading half demands
+   non-empty setting values; such a document is representable and round-trips, C02_write_rendering_ok_needs_region_id).
+   C02_write_read_via_rendering: hence write -> read re-derived from the rendering theorem and the reading half.
+   C02_write_read_rendering: the three facts for every representable document (reading taken from C02_write_read). *)
+Theorem C02_write_is_rendering : forall d so ro, vd_items d <> [] -> regions_keyed d ro -> times_nonneg d ->
+  write_vtt d so ro = Ok (render_eol [10%N] (render_vtt (w_hrend d so ro) (w_gdoc d so ro) (w_cues d) [])).
+Proof. exact write_is_rendering. Qed.
+Print Assumptions C02_write_is_rendering.
+Theorem C02_write_is_rendering_repr : forall d so ro, repr_vdoc d so ro ->
+  write_vtt d so ro = Ok (render_eol [10%N] (render_vtt (w_hrend d so ro) (w_gdoc d so ro) (w_cues d) [])).
+Proof. exact write_is_rendering_repr. Qed.
+Print Assumptions C02_write_is_rendering_repr.
+Theorem C02_write_denotes : forall d so ro, repr_vdoc d so ro -> denote_vtt (w_gdoc d so ro) (w_cues d) = ndoc d so ro.
+Proof. exact write_denotes. Qed.
+Print Assumptions C02_write_denotes.
+Theorem C02_write_denotes_count : forall d so ro, (Z.of_nat (length (vd_items d)) <= max_int64)%Z ->
+  denote_vtt (w_gdoc d so ro) (w_cues d) = ndoc d so ro.
+Proof. exact write_denotes_count. Qed.
+Print Assumptions C02_write_denotes_count.
+Theorem C02_write_rendering_ok : forall d so ro, repr_vdoc d so ro -> region_refs_nonempty d ->
+  hrend_ok (w_hrend d so ro) (w_gdoc d so ro) /\ gdoc_ok (w_gdoc d so ro) /\
+  Forall (fun p => gcue_ok (denote_regions (w_gdoc d so ro)) (snd p) /\ crend_ok (fst p) (snd p)) (w_cues d) /\
+  Forall (fun p => cr_before (fst p) <> []) (tl (w_cues d)) /\ Forall blank (@nil str).
+Proof. exact write_rendering_ok. Qed.
+Print Assumptions C02_write_rendering_ok.
+Theorem C02_write_read_via_rendering : forall d so ro, repr_vdoc d so ro -> region_refs_nonempty d ->
+  exists data, write_vtt d so ro = Ok data /\
+    data = render_eol [10%N] (render_vtt (w_hrend d so ro) (w_gdoc d so ro) (w_cues d) []) /\
+    read_vtt data = Ok (denote_vtt (w_gdoc d so ro) (w_cues d)) /\
+    denote_vtt (w_gdoc d so ro) (w_cues d) = ndoc d so ro.
+Proof. exact write_read_via_rendering. Qed.
+Print Assumptions C02_write_read_via_rendering.
+Theorem C02_write_read_rendering : forall d so ro, repr_vdoc d so ro ->
+  exists data, write_vtt d so ro = Ok data /\
+    data = render_eol [10%N] (render_vtt (w_hrend d so ro) (w_gdoc d so ro) (w_cues d) []) /\
+    read_vtt data = Ok (denote_vtt (w_gdoc d so ro) (w_cues d)) /\
+    denote_vtt (w_gdoc d so ro) (w_cues d) = ndoc d so ro.
+Proof. exact write_read_rendering. Qed.
+Print Assumptions C02_write_read_rendering.
+(* a rendering given as bytes is read under the general side conditions too (C02_read_rendered has the decidable check) *)
+Theorem C02_read_rendered_bytes_gen : forall e h g cues eof, eol_ok e ->
+  hrend_ok h g -> gdoc_ok g ->
+  Forall (fun p => gcue_ok (denote_regions g) (snd p) /\ crend_ok (fst p) (snd p)) cues ->
+  Forall (fun p => cr_before (fst p) <> []) (tl cues) -> Forall blank eof ->
+  read_vtt (render_eol e (render_vtt h g cues eof)) = Ok (denote_vtt g cues).
+Proof. exact read_rendered_vtt_bytes_gen. Qed.
+Print Assumptions C02_read_rendered_bytes_gen.
+(* the worked instance: the document of C02_example, its canonical rendering line by line, the writer's bytes, the
+   decidable check of the reading half, the denotation *)
+Example C02_write_rendering_example_lines :
+  render_vtt (w_hrend ex_doc ex_so ex_ro) (w_gdoc ex_doc ex_so ex_ro) (w_cues ex_doc) [] =
+  [b "WEBVTT"; b "X-TIMESTAMP-MAP=LOCAL:00:00:05.000,MPEGTS:900000"; [];
+   b "STYLE"; b "::cue {"; b "color: red }"; [];
+   b "Region: id=bill";
+   b "Region: id=fred lines=3 regionanchor=0%,100% scroll=up viewportanchor=10%,90% width=40%"; [];
+   b "NOTE a comment"; b "more"; [];
+   b "1"; b "00:00:01.000 --> 00:00:02.500 align:start line:-1 position:10% region:fred vertical:rl";
+   b "<v Bob><c.red.big>Hello </c><00:00:01.500>world"; b "second"; [];
+   b "2"; b "00:00:03.000 --> 00:00:04.000"; b "second"].
+Proof. exact ex_write_lines. Qed.
+Example C02_write_rendering_example :
+  write_vtt ex_doc ex_so ex_ro =
+    Ok (render_eol [10%N] (render_vtt (w_hrend ex_doc ex_so ex_ro) (w_gdoc ex_doc ex_so ex_ro) (w_cues ex_doc) [])) /\
+  rendering_okb (w_hrend ex_doc ex_so ex_ro) (w_gdoc ex_doc ex_so ex_ro) (w_cues ex_doc) [] = true /\
+  denote_vtt (w_gdoc ex_doc ex_so ex_ro) (w_cues ex_doc) = ndoc ex_doc ex_so ex_ro.
+Proof. exact (conj ex_write_is_rendering (conj ex_write_rendering_okb ex_write_denotes)). Qed.
+(* the side conditions are needed / come from where the comment block says *)
+Example C02_write_is_rendering_needs_nonneg :
+  write_vtt neg_doc [] [] = Ok (b "WEBVTT" ++ [10; 10]%N ++ b "1" ++ [10%N] ++ b "00:00:00.0-1 --> 00:00:01.000" ++ [10%N] ++ b "second" ++ [10%N]) /\
+  render_vtt (w_hrend neg_doc [] []) (w_gdoc neg_doc [] []) (w_cues neg_doc) [] =
+  [b "WEBVTT"; []; b "1"; b "0-1:59:59.999 --> 00:00:01.000"; b "second"].
+Proof. exact write_is_rendering_needs_nonneg. Qed.
+Example C02_write_rendering_ok_needs_region_id :
+  repr_vdoc noid_doc [] [[]] /\
+  render_vtt (w_hrend noid_doc [] [[]]) (w_gdoc noid_doc [] [[]]) (w_cues noid_doc) [] =
+  [b "WEBVTT"; []; b "Region: id="; []; b "1"; b "00:00:00.000 --> 00:00:01.000 region:"; b "second"] /\
+  rendering_okb (w_hrend noid_doc [] [[]]) (w_gdoc noid_doc [] [[]]) (w_cues noid_doc) [] = false /\
+  ~ region_refs_nonempty noid_doc.
+Proof. exact (conj noid_doc_repr write_rendering_ok_needs_region_id). Qed.
